@@ -25,11 +25,39 @@ Definition check_rgb (c : nat * nat * list (list (list Z)) * Z * list (list (lis
   let '(H, W, rgb, rp, q, back) := c in
   l3eq (tab3 H W 4 (gen_rgb_to_quat Z H W 0 rp (t3 rgb))) q && l3eq (tab3 H W 3 (gen_quat_to_rgb_noclip Z H W (t3 q))) back.
 """
+HEADER_M = """From Coq Require Import ZArith QArith Qcanon Qabs List Bool Arith. Import ListNotations.
+From QV Require Import MetricOps.
+From B Require Import Gen_C18m.
+Definition v (L : list Qc) : nat -> Qc := fun i => nth i L (Q2Qc 0).
+(* |a - b| <= 2^-30 |b| *)
+Definition close (a b : Qc) : bool := Qle_bool (Qabs (this a - this b)) ((1 # 1073741824) * Qabs (this b)).
+Definition sq (a : Qc) : Qc := Qcmult a a.
+(* noise injection: (N, 10**(snr_db/10) as computed by the implementation, Q, snr_db, returned - Q) with a generator that returns its scale;
+   sqrt is the identity in MQ, so the model adds sigma^2 where the implementation adds sigma *)
+Definition check_awgn (c : nat * Qc * list Qc * Qc * list Qc) : bool :=
+  let '(N, p10, Q, snr, d) := c in
+  let r := gen_add_awgn_snr (MQ p10) N (fun _ sc _ => sc) (v Q) snr in
+  forallb (fun i => close (sq (nth i d (Q2Qc 0))) (Qcminus (r i) (v Q i))) (seq 0 N).
+(* psnr: (N, x, x_ref, data_range, finite?, 10**(psnr/10)); log10 is the identity in MQ *)
+Definition check_psnr (c : nat * list Qc * list Qc * option Qc * bool * Qc) : bool :=
+  let '(N, x, xr, dr, fin, r) := c in
+  match gen_psnr (MQ (Q2Qc 0)) N (v x) (v xr) dr with
+  | None => negb fin
+  | Some m => fin && close r (Qcdiv m (Q2Qc 10))
+  end.
+(* relative_error: (N, x, x_ref, finite?, value^2) *)
+Definition check_relerr (c : nat * list Qc * list Qc * bool * Qc) : bool :=
+  let '(N, x, xr, fin, r2) := c in
+  match gen_relative_error (MQ (Q2Qc 0)) N (v x) (v xr) with
+  | None => negb fin
+  | Some m => fin && close r2 m
+  end.
+"""
 def l3(T): return '[' + '; '.join('[' + '; '.join('[' + '; '.join(cm.zlit(v) for v in r) + ']' for r in p) + ']' for p in T) + ']'
 
 def run(ctx):
     cm.setup_impl_path(); sys.path.insert(0, os.path.join(cm.ROOT, 'qtrans'))
-    for b in cm.audit(cm.coq_sources() + [os.path.join(cm.ROOT, 'props', 'C18.v')]): ctx.broken.append('audit: ' + b)
+    for b in cm.audit(cm.coq_sources() + [os.path.join(cm.ROOT, 'props', 'C18.v'), os.path.join(cm.ROOT, 'props', 'C18m.v')]): ctx.broken.append('audit: ' + b)
     info = None
     try:
         import gen_c18
@@ -40,6 +68,16 @@ def run(ctx):
         ctx.obligations.append(('translate', False, repr(e)))
         ctx.broken.append(f'qtrans cannot translate tensor.py / qslst.py helpers any more: {e!r}')
     if info is not None: cm.prove(ctx, 'C18.v', ['Gen_C18.v'])
+    info_m = None
+    try:
+        import gen_c18m
+        txt, info_m = gen_c18m.generate(cm.REPO)
+        open(os.path.join(ctx.build, 'Gen_C18m.v'), 'w').write(txt)
+        ctx.obligations.append(('translate:qslst.py(add_awgn_snr,psnr,relative_error)', True, ''))
+    except Exception as e:
+        ctx.obligations.append(('translate:metrics', False, repr(e)))
+        ctx.broken.append(f'qtrans cannot translate add_awgn_snr / psnr / relative_error any more: {e!r}')
+    if info_m is not None: cm.prove(ctx, 'C18m.v', ['Gen_C18m.v'])
     try:
         import numpy as np, quaternion, tensor, qslst
     except Exception as e:
@@ -153,6 +191,47 @@ def run(ctx):
         z = np.zeros((3, 3, 4))
         if not np.array_equal(qslst.add_awgn_snr(z, snr_db, rng=np.random.default_rng(0)), z): viol('C18:awgn:zero', 'noise added to the zero image', {})
         ctx.count(('awgn', snr_db), True)
+    # generated metric / noise definitions next to the implementation (exact rationals; sqrt and log10 left symbolic, see HEADER_M)
+    from fractions import Fraction as Fr
+    ql = cm.qlit
+    def qv(a): return '[' + '; '.join(ql(Fr(float(t))) for t in np.asarray(a, dtype=float).ravel()) + ']'
+    class _ScaleRng:
+        def normal(s, loc=0.0, scale=1.0, size=None): return np.full(size, float(scale)) + float(loc)
+    aterms = []; pterms = []; eterms = []
+    for it in range(12 if ctx.quick() else 60):
+        Hh, Ww = rng.randint(1, 3), rng.randint(1, 3)
+        Qi = np.array([[[float(rng.randint(-6, 6)) for _ in range(4)] for _ in range(Ww)] for _ in range(Hh)])
+        if it % 4 == 1: Qi[..., 0] = 0.0                                    # the default real part
+        if it % 4 == 2: Qi[..., 1:] = 0.0; Qi[0, 0, 0] = 3.0                 # energy in the real channel only
+        if it == 3: Qi[:] = 0.0                                              # zero image: returned unchanged
+        snr_db = [0.0, 7.0, 20.0, -3.0, 12.5][it % 5]
+        try: out = qslst.add_awgn_snr(Qi.copy(), snr_db, rng=_ScaleRng())
+        except Exception as e: viol('C18:awgn:raises', f'add_awgn_snr raised {e!r}', {'Q': Qi.tolist(), 'snr_db': snr_db}); continue
+        d = [Fr(float(a)) - Fr(float(b)) for a, b in zip(out.ravel(), Qi.ravel())]
+        aterms.append(f'({Qi.size}%nat, {ql(Fr(10.0 ** (snr_db / 10.0)))}, {qv(Qi)}, {ql(Fr(snr_db))}, [' + '; '.join(ql(t) for t in d) + '])')
+    for it in range(16 if ctx.quick() else 80):
+        n = rng.randint(1, 6)
+        xr = np.array([rng.randint(-8, 8) / 4.0 for _ in range(n)])
+        x = xr + np.array([rng.choice((0, 0, 1, -1, 2)) / 8.0 for _ in range(n)])
+        if it % 5 == 0: x = xr.copy()
+        if it % 5 == 1: xr = np.zeros(n)
+        if it % 5 == 2: xr = np.full(n, 0.75)                                # constant reference: the default range falls back to 1.0
+        for dr in (None, 2.0):
+            try: pv = float(qslst.psnr(x.copy(), xr.copy(), data_range=dr))
+            except Exception as e: viol('C18:psnr:raises', f'psnr raised {e!r}', {'x': x.tolist(), 'x_ref': xr.tolist()}); continue
+            fin = math.isfinite(pv)
+            pterms.append(f'({n}%nat, {qv(x)}, {qv(xr)}, {"None" if dr is None else "Some " + ql(Fr(dr))}, {str(fin).lower()}, {ql(Fr(10.0 ** (pv / 10.0)) if fin else Fr(0))})')
+        try: rv = float(qslst.relative_error(x.copy(), xr.copy()))
+        except Exception as e: viol('C18:relerr:raises', f'relative_error raised {e!r}', {'x': x.tolist(), 'x_ref': xr.tolist()}); continue
+        fin = math.isfinite(rv)
+        eterms.append(f'({n}%nat, {qv(x)}, {qv(xr)}, {str(fin).lower()}, {ql(Fr(rv) ** 2 if fin else Fr(0))})')
+    if info_m is not None:
+        for name, terms, fn in (('awgn', aterms, 'check_awgn'), ('psnr', pterms, 'check_psnr'), ('relerr', eterms, 'check_relerr')):
+            res = cm.run_cases(ctx, 'cases_' + name, HEADER_M, terms, fn, shard=60)
+            if res is not None:
+                ctx.cov['traces_validated_against_impl'] += len(res)
+                bad = [i for i, r in enumerate(res) if not r]
+                if bad: ctx.broken.append(f'generated {name} definition and implementation disagree on {len(bad)} of {len(res)} case(s), first: {terms[bad[0]][:300]}')
     if info is not None:
         for name, terms, fn in (('unfold', uterms, 'check_unfold'), ('rgb', rterms, 'check_rgb')):
             res = cm.run_cases(ctx, 'cases_' + name, HEADER, terms, fn, shard=120)
@@ -163,8 +242,9 @@ def run(ctx):
     ctx.cov['exhaustive'] = True
     ctx.cov['rule'] = (f'all {top}^3 tensor shapes (plus four elongated ones) x modes 0..2 x four memory layouts (C, Fortran, transposed view, strided slice) with pairwise distinct tags: '
                        'shape, canonical fibre order, bit-identical round trips, norm and moduli; generated Gallina unfold/fold executed on the same tags; '
-                       'integer RGB images for the colour maps, metric probes at distances 1e-3 .. 1 ulp .. 1e-170, seeded noise injection. Distinct = new (shape, layout) or input bytes.')
+                       'integer RGB images for the colour maps, metric probes at distances 1e-3 .. 1 ulp .. 1e-170, seeded noise injection; add_awgn_snr / psnr / relative_error regenerated from the source (Gen_C18m.v) and executed over Qc next to the implementation on integer images, dyadic arrays, equal / zero / constant references, given and default data range. Distinct = new (shape, layout) or input bytes.')
     return cm.finish(ctx, 'proof', '', ASSUME)
 
 ASSUME = ['NumPy reshape is row-major and transpose permutes axes as documented (cross-checked on every layout)',
-          'expectation of the noise power is estimated from 6 seeded draws (not a theorem)']
+          'noise injection: the generator is an input of the generated model (draw loc scale); the theorem fixes the scale handed to it (N sigma^2 = ||Q||^2 / 10^(snr/10)); that the draws of rng.normal(0, sigma) have variance sigma^2 is NumPy\'s contract (estimated from 6 seeded draws, not a theorem)',
+          'metrics and noise are modelled over the reals (theorems) and over Qc with sqrt / log10 / 10**x left symbolic (execution): underflow of squared differences in binary64 is outside the model (open finding KF-C18-underflow)']
